@@ -494,6 +494,12 @@ func (t *RaftTransaction) ListPage(ctx context.Context, prefix string, after str
 	seekPrefix := []byte(fullAfter)
 	if after == "" {
 		seekPrefix = prefixBytes
+	} else if !bytes.HasPrefix(seekPrefix, prefixBytes) {
+		// filepath.Join cleans the joined path, so for after="." or
+		// after="../x" the result no longer starts with prefix; seeking
+		// there fails the initial HasPrefix check below and skips all
+		// results. Mirror listPageInner and start at the prefix instead.
+		seekPrefix = prefixBytes
 	}
 
 	// Assume the bucket exists and has keys.
